@@ -2,7 +2,7 @@
 import collections
 import json, pickle, base64, random
 import numpy as np
-from . import common, circ, wavecorr as wc
+from . import common, circ, simcorr, wavecorr as wc
 
 PID = 'C07'
 TARGETS = ['KyupyVerif.Props.C07']
@@ -212,6 +212,10 @@ def cert(case):
     out = common.run_driver([f'net {circ.dump_net(c)}', f"mapok {int(case['strip'])} 4 {rest}",
                              f"schedok {int(case['strip'])} 4 {rest} {','.join(map(str, sched))}",
                              f"schedok {int(case['strip'])} 4 {rest} {','.join(map(str, bad))}"])
+    # tie of writer_before_reader_simops / memory_any_schedule_all_circuits: rows, level_starts and the map of the Lean SimOps model
+    # (genOps, levelise, memMap) are EXACTLY the real ones on this case
+    eq, _real, _model, diff, _ = simcorr.compare(c, case['strip'], case['reuse'], case['caps'], 4)
+    if not eq: ans = f'SimOps model != real SimOps: first difference in {diff}'
     if out[1] != 'ok': ans = f'map certificate on the real tables: {out[1]}'
     elif out[2] != 'ok': ans = 'schedOKB rejects a permutation inside the levels'
     elif len(so.level_starts) > 1 and out[3] != 'FAIL': ans = 'schedOKB accepts an order that crosses a level boundary'
@@ -228,9 +232,11 @@ def oracle(ck, n, thorough=False):
             ok, obs, exp = eval_case(cs)
         except Exception as ex:
             ok, obs, exp, widest = False, {'raised': f'{type(ex).__name__}: {ex}'[:300]}, None, 0
+        # hypotheses of memory_any_schedule_all_circuits / writer_before_reader_simops on the REAL circuit and order
+        hyp_tag = common.allcirc_hyp(ck, pickle.loads(base64.b64decode(cs['circuit'])), [cs['strip']], 'C07')
         ck.case(key=(cs['circuit'][:80], cs['strip'], cs['reuse'], cs['pseed']), nontrivial=widest >= 2,
                 sample={k: v for k, v in cs.items() if k != 'circuit'},
-                tag=[f"strip:{cs['strip']}", f"reuse:{cs['reuse']}", f"order:{cs['order']}", f'widest-level:{min(widest, 8)}'])
+                tag=[f"strip:{cs['strip']}", f"reuse:{cs['reuse']}", f"order:{cs['order']}", f'widest-level:{min(widest, 8)}', hyp_tag])
         if not ok:
             ck.violation('schedule', 'results depend on the order of operations / threads inside a level', cs, obs, exp)
 
@@ -242,7 +248,7 @@ def run(ck):
     oracle(ck, n, ck.tier == 'thorough')
     if ck.broken and not ck.violations: oracle(ck, n * 4, ck.tier == 'thorough')
     ck.assumptions += ['real GPU scheduling is represented by atomic per-thread steps of the mock launcher (no numba/CUDA in this sandbox)',
-                       'memory-level independence: theorem memory_any_schedule under the map certificate, which is evaluated on the real tables of every case (not proved for all circuits)']
+                       'memory-level independence: theorem memory_any_schedule under the map certificate, which is evaluated on the real tables of every case; memory_any_schedule_all_circuits / writer_before_reader_simops speak about the tables of the Lean SimOps model (level_starts = levelise: compared exactly with the real ops / level_starts / c_locs / c_caps / c_len on every case here and in C01/C08); their hypotheses wfB/orderOKB/forksOKB/readsDrivenB are evaluated by the driver on every real circuit and order (tag allcirc-hyp)']
     return ck.finish(RULE)
 
 
